@@ -5,7 +5,8 @@ from .tools import TOOLS
 from .doubles import argkey  # noqa: F401  (documented dependency: key tables index by uid)
 
 EXC_NAMES = ["Fault", "TypeError", "ValueError", "AttributeError", "KeyError",
-             "RuntimeError", "LookupError"]
+             "RuntimeError", "LookupError", "IndexError", "OSError", "AssertionError", "RecursionError",
+             "NotImplementedError", "EOFError", "TimeoutError", "ZeroDivisionError"]
 
 K = st.integers(0, 3).map(lambda k: ("K", k))  # placeholder: Item with this key
 
